@@ -1452,8 +1452,16 @@ impl ProtocolState {
                 self.encoder.reset(packet, &encode_context)?;
             }
 
-            let packet = &self.operations.get(&self.current_operation.unwrap()).unwrap().packet;
+            let current_operation_id = self.current_operation.unwrap();
+            if !self.operations.contains_key(&current_operation_id) {
+                // The operation was failed (ack timeout) while one of its packets was only
+                // partly encoded.  The outbound stream cannot be continued in a well-formed way.
+                error!("[{} ms] service_queue - partially-encoded operation {} no longer exists", self.elapsed_time_ms, current_operation_id);
+                self.current_operation = None;
+                return Err(GneissError::new_connection_closed("operation failed while its packet was partially written"));
+            }
 
+            let packet = &self.operations.get(&current_operation_id).unwrap().packet;
 
             let encode_result = self.encoder.encode(packet, context.to_socket)?;
             if encode_result == EncodeResult::Complete {
